@@ -17,7 +17,7 @@ import random
 
 from ..common import Run, MachineryError, quiet_pygaps, exc_class
 from .. import tlc
-from ..models_common import FORMS, frac, fpar, par_key, build, shape_arg, call, per_point, denc as dec_enc
+from ..models_common import FORMS, frac, fpar, par_key, build, shape_arg, call, per_point, denc as dec_enc, history_records
 
 PID = "C10"
 # float64 tolerances of the table replay, by accuracy class of the library routine (spec: InvClass)
@@ -266,6 +266,25 @@ def relational(run, grid, meta, rng, thorough):
         run.sample({"kind": "observation record judged by ModelsOracle", "record": recs[k], "answer": answers[k]})
 
 
+# ------------------------------------------------------------------ 3b. history on one model object
+def histories(run, meta, rng, thorough):
+    plans = tlc.oracle("ModelsOracle", [{"k": "histplan"}], timeout=600)[0]["plans"]
+    items = []
+    for model in sorted(plans):
+        calc = meta[model]["calc"]
+        chain = [("loading", "args"), ("pressure", "loading")] if calc == "loading" else [("pressure", "args"), ("loading", "pressure")]
+        items += history_records(run, plans[model], model, calc, chain, ("scalar", "1d"), 6 if thorough else 2, rng)
+    answers = tlc.oracle("ModelsOracle", [r for r, _ in items], timeout=600)
+    for (_, handler), ans in zip(items, answers):
+        handler(ans)
+    run.add("traces_validated_against_impl", len(items))
+    run.set(histories_replayed=len(items))
+    if items:
+        r = dict(items[0][0])
+        r["evals"] = r["evals"][:2] + ["..."]
+        run.sample({"kind": "history on one model object judged by ModelsOracle!HistStep", "record": r})
+
+
 # ------------------------------------------------------------------ 4. ModelIsotherm wrapper
 def wrapper(run, table, rng, thorough):
     import numpy
@@ -394,6 +413,7 @@ def main(tier, seed):
     run.set(table_rows=sum(len(e["rows"]) for m in table for e in table[m]),
             table_worst_relative_error={f"{k[0]}.{k[1]}": float(f"{v:.3g}") for k, v in sorted(stats.items()) if v > 1e-12})
     relational(run, grid, meta, rng, thorough)
+    histories(run, meta, rng, thorough)
     wrapper(run, table, rng, thorough)
 
     run.set(exhaustive=False,
@@ -401,6 +421,9 @@ def main(tier, seed):
                  "zero point + 1-6 pressures each) replayed on loading() and pressure() with scalar / 0-d / 1-d arguments; "
                  "(b) general parameter vectors enumerated by the specification (" + ("all" if thorough else "a seeded third, at least 6 per model")
                  + ") x 5-9 arguments (thorough: with their midpoints, 9-17) x 3 argument forms, observations judged clause by clause by TLC (ModelsOracle); "
+                 "(b2) histories on one model object (evaluate, evaluate another instance of the class, overwrite every parameter in place, re-fit in place; "
+                 "re-evaluate the same arguments after each step) for " + ("6" if thorough else "2") + " seeded parameter-vector pairs per model, judged against a fresh model "
+                 "with the current parameters (Models!HistStep); "
                  "(c) ModelIsotherm.loading_at/pressure_at for 4 models x 2 native unit systems x requested pressure/loading/material representations. "
                  "non-trivial = not the zero row / not the native representation; distinct = distinct (part, model, parameters, form, function, row)")
     run.assume("the model equations transcribed in spec/Models.tla (from the formula/docstring of each model class) are the reference for 'the model'")
